@@ -3,7 +3,7 @@ Tie: h_compare (three views of equal rank with independent layouts, all relation
 owning copies and mixed) vs the extracted model."""
 import re
 
-from . import core, progcheck
+from . import core, progcheck, rank0
 
 PID = "C07"
 C_RE = re.compile(r"^C (\S+) (\w)(\w) view=(\S+) array=(\S+) mixed=(\S+)$")
@@ -139,6 +139,9 @@ def configure(fam):
 def run(tier, seed, replay=None):
     import os
     res = core.Result(PID, tier, seed, level="proof")
+    if replay and rank0.is_rank0_replay(replay):
+        rank0.replay(res, PID, replay)
+        return res.finish()
     fam = FAMILY
     has_ge = ge_probe()
     has_rank0, rank0_log = rank0_probe()
@@ -199,4 +202,5 @@ def run(tier, seed, replay=None):
         "not_exercised": ["rank >= 5", "fancy pointers (C11)"],
     })
     res.assumptions = ["no 64-bit overflow", "g++ 12 / libstdc++ as installed", "element order is that of int"]
+    rank0.run_family(res, tier, seed, PID)     # dimensionality 0: compile probes + h_rank0 (coverage under "rank0")
     return res.finish()
